@@ -24,6 +24,12 @@ pub fn label_case(obs: &mut Obs, case: &BuildCase, fam: &str, built: Option<&Bui
     if case.input.is_empty() {
         obs.label("len:0");
     }
+    if case.warm.is_some() {
+        obs.label("history:builder_reused");
+    }
+    if case.pred != 0 {
+        obs.label(&format!("history:predecessor_{}", case.pred));
+    }
     if let Some(b) = built {
         if let Some(v) = refmodel::tables::version_from_size(b.size()) {
             obs.label(&format!("band:{}", version_band(v)));
